@@ -340,6 +340,10 @@ def syntactic_candidates(case, c, impl, model, spec):
 
 
 def nontrivial(case, outs):
+    for c, o in zip(case["cmds"], outs):
+        if c[0] == "xopt" and o == "ok" and qtree.xfolds(qtree.xconstruct(qtree.parse_tokens(list(c[1:]))), []) \
+                and any(len(d) > 3 and d[3] != "none" for d in case["cmds"] if d[0] == "doc"):
+            return True         # three agreeing opinions on a tree the optimiser folds, over a non-empty catalog
     for j, (c, o) in enumerate(zip(case["cmds"], outs)):
         if c[0] == "optshape" and o != " ".join(map(str, c[1:])) and not o.startswith("err"):
             if any(x.startswith("{") and x != "{}" for x in outs):
@@ -356,8 +360,13 @@ def features(case, outs):
             f += ["xopt-const:" + x for x in qtree.xfeatures(t)]
             folds = qtree.xfolds(qtree.xconstruct(t), [])
             for op, cc, i, leaves in folds:
-                ex = sorted(set(x for k in leaves for x in qtree.xfeatures(k)))
-                f.append("xopt-fold:%s-%s%s" % (op, cc, "+" + "+".join(ex) if ex else ""))
+                f.append("xopt-fold:" + {("or", "eq"): "any", ("and", "eq"): "all", ("and", "noteq"): "notany",
+                                         ("or", "noteq"): "notall"}[(op, cc)])
+                for x in sorted(set(x for k in leaves for x in qtree.xfeatures(k))):
+                    f.append("xopt-fold-over:" + x)
+            eff = qtree.xeffective(t)
+            if any(c in ("gt", "ge") for c, _ in eff) and any(c in ("lt", "le") for c, _ in eff):
+                f.append("xopt:lower+upper-bounds")
             idx = set(i for _, i in qtree.xeffective(t))
             if any(x[1] == "twocat" for x in case["cfg"]) and any(i ^ 1 in idx for i in idx):
                 f.append("xopt:same-named-indexes-mixed")
